@@ -100,6 +100,12 @@ func (d *D) Base(idx int, ctx *core.Ctx) *core.Scenario {
 		sc.Kind = "l1:maplife"
 		sc.Inputs = nil
 	}
+	if idx%6 == 4 {
+		// programs that break ONE static rule and are rejected today: if a tree accepts one, it must still not go wrong
+		sc.Program = work.NearValid((idx/6 + int(ctx.Seed%97)*131) % work.NearValidCount)
+		sc.Kind = "l1:near-valid"
+		sc.Inputs, sc.Events = nil, nil
+	}
 	if r.Chance(0.5) {
 		sc.Faults = []core.Fault{{Kind: "stop", At: 1 + r.Intn(400)}}
 	}
@@ -437,6 +443,13 @@ func (d *D) check(sc *core.Scenario, ctx *core.Ctx) *core.Violation {
 	if ctx != nil {
 		ctx.Inc("typemon_checks", res.TypeMonChecks)
 	}
+	if ctx != nil && sc.Kind == "l1:near-valid" {
+		if res.Accepted {
+			ctx.Inc("near_valid_programs_accepted_and_run", 1)
+		} else {
+			ctx.Inc("near_valid_programs_rejected", 1)
+		}
+	}
 	if !res.Accepted {
 		if ctx != nil && res.EndClass == core.EndParserCrash {
 			ctx.Inc("parser_crash_observed_outside_scope(C03)", 1)
@@ -596,7 +609,7 @@ func (d *D) Describe(ev *core.Evidence, st *core.Stats) {
 	ev.Coverage["faults_injected"] = faults
 	ev.Coverage["end_classes"] = ends
 	ev.Coverage["probes"] = map[string]int64{"stream_runs_with_svg_platform": c["stream_runs_with_svg_platform"], "l2_runs": c["l2_runs"], "events_handled": c["events_handled"],
-		"runtime_type_monitor_values_checked": c["typemon_checks"], "parser_crashes_seen_and_skipped(C03)": c["parser_crash_observed_outside_scope(C03)"], "programs_rejected_by_parser": c["programs_rejected_by_parser"],
+		"runtime_type_monitor_values_checked": c["typemon_checks"], "near_valid_programs_rejected": c["near_valid_programs_rejected"], "near_valid_programs_accepted_and_run": c["near_valid_programs_accepted_and_run"], "parser_crashes_seen_and_skipped(C03)": c["parser_crash_observed_outside_scope(C03)"], "programs_rejected_by_parser": c["programs_rejected_by_parser"],
 		"eof_in_the_middle_of_a_line": c["fired:eof-in-the-middle-of-a-line"], "eof_before_first_byte": c["fired:eof-before-first-byte"]}
 	ev.Coverage["simulated_time_s"] = float64(c["simulated_ns"]) / 1e9
 	ev.Coverage["steps"] = c["steps"]
